@@ -71,8 +71,7 @@ def run(cx):
     def assign_of(name, pattern=None):
         out = [s for s in fn.stmts(ast.Assign) if isinstance(s.targets[0], ast.Name) and s.targets[0].id == name]
         if pattern is not None:
-            pat = sym.norm(pattern)
-            out = [s for s in out if sym.norm(s.value) == pat]
+            out = [s for s in out if fn.eqv(s.value, pattern) is not None]
         return out
 
     # fewer than two events refused before binning
